@@ -24,12 +24,16 @@ pub struct Case {
     /// the object is owned by a `Box` and the box is dropped; the allocator reports the block's content at `dealloc`
     #[serde(default)]
     pub boxed: bool,
+    /// what was done with the object before the drop: bit 0 get_public_key() (private keys), bit 1 one signing /
+    /// verification call, bit 2 a clone serialised
+    #[serde(default)]
+    pub pre: u8,
 }
 
 fn strategy() -> impl Strategy<Value = Case> {
     let prov = prop_oneof![Just(Provenance::Generated), Just(Provenance::Deserialised), Just(Provenance::Derived), Just(Provenance::Cloned)];
-    (0u8..3, any::<bool>(), prov, gen::seed32(), proptest::option::of(gen::sk_spec()), proptest::option::of(gen::pk_spec()), any::<bool>(), proptest::bool::weighted(0.35))
-        .prop_map(|(set, private, prov, seed, structured_sk, structured_pk, misalign, boxed)| Case { set, private, prov, seed, structured_sk, structured_pk, misalign, boxed })
+    (0u8..3, any::<bool>(), prov, gen::seed32(), proptest::option::of(gen::sk_spec()), proptest::option::of(gen::pk_spec()), any::<bool>(), proptest::bool::weighted(0.35), prop_oneof![3 => Just(0u8), 2 => 0u8..8])
+        .prop_map(|(set, private, prov, seed, structured_sk, structured_pk, misalign, boxed, pre)| Case { set, private, prov, seed, structured_sk, structured_pk, misalign, boxed, pre })
 }
 
 pub fn check(c: &Case, st: &mut Stats) -> CheckResult {
@@ -47,7 +51,7 @@ pub fn check(c: &Case, st: &mut Stats) -> CheckResult {
         None
     };
     let xi = c.seed.bytes();
-    let probe = g("drop", || libr.drop_probe(private, c.prov, &xi, structured.as_deref(), c.misalign, c.boxed))?;
+    let probe = g("drop", || libr.drop_probe(private, c.prov, &xi, structured.as_deref(), c.misalign, c.boxed, c.pre))?;
     let Some(pr) = probe else {
         st.class("skipped:bytes_rejected");
         return Ok(());
@@ -56,11 +60,21 @@ pub fn check(c: &Case, st: &mut Stats) -> CheckResult {
     let kind = if private { "PrivateKey" } else { "PublicKey" };
     let tag = format!("set{}:{kind}:{:?}", p.id, c.prov);
     st.class(&tag);
+    if c.pre != 0 {
+        st.class("object used before the drop (derive / sign or verify / serialise a clone)");
+    }
     st.class(if c.boxed { "placement:Box (observed by the allocator at dealloc)" } else if c.misalign { "placement:odd multiple of the alignment" } else { "placement:128-byte aligned" });
     // expected object size: no padding, every byte belongs to a field
     let expect = if private { 128 + 1024 * (p.l + 2 * p.k) } else { 96 + 1024 * p.k };
-    if pr.size != expect {
-        fail!(format!("unexpected_layout:{kind}:set{}", p.id), "{tag}: object size {} differs from the sum of its fields {expect}; padding would not be covered by the observation", pr.size);
+    // If the layout is not the known one (fields added, padding possible) the observation still covers every byte of
+    // the object, but a few surviving bytes could be padding, which no wipe touches: then only a residue of at least
+    // 32 bytes (more than alignment gaps can explain) is judged.
+    let known_layout = pr.size == expect;
+    if !known_layout {
+        st.class("layout differs from the pinned one (residues below 32 bytes are not judged)");
+        if pr.nonzero_after < 32 {
+            return Ok(());
+        }
     }
     if pr.nonzero_before >= 1000 && pr.blocks_nonzero_before == pr.blocks {
         st.nontrivial(c);
